@@ -41,6 +41,9 @@ var updateRefCmd = &cobra.Command{
 		}
 		branchSplit := strings.Split(args[0], "/")
 		branchName := branchSplit[len(branchSplit)-1]
+		if args[0] != "refs/heads/"+branchName {
+			return fmt.Errorf("invalid branch path %s", args[0])
+		}
 
 		// hash validation
 		hashString := args[1]
